@@ -153,14 +153,14 @@ class StepOperationExecutor(OperationExecutor[T]):
         ):
             return CheckResult.create_is_ready_to_execute(checkpointed_result)
 
-        # Create START checkpoint if not exists. With at-most-once semantics every attempt must be
-        # durably started before the function is entered, so a retry attempt (READY) is started too;
-        # otherwise a crash inside it would be indistinguishable from "never ran" and run it again.
-        is_ready_at_most_once: bool = (
-            checkpointed_result.status is OperationStatus.READY
-            and self.config.step_semantics is StepSemantics.AT_MOST_ONCE_PER_RETRY
-        )
-        if not checkpointed_result.is_existent() or is_ready_at_most_once:
+        # Create START checkpoint if not exists, and for every retry attempt (READY). With
+        # at-most-once semantics every attempt must be durably started before the function is
+        # entered, otherwise a crash inside a retry attempt would be indistinguishable from "never
+        # ran" and run it again. With at-least-once semantics the (non-blocking) START still passes
+        # the orphan check of create_checkpoint, so an orphaned map/parallel branch is stopped
+        # before the function of a retry attempt runs, exactly as for a first attempt.
+        is_ready: bool = checkpointed_result.status is OperationStatus.READY
+        if not checkpointed_result.is_existent() or is_ready:
             start_operation: OperationUpdate = OperationUpdate.create_step_start(
                 identifier=self.operation_identifier,
             )
